@@ -237,11 +237,17 @@ def run(ctx):
     # ---------------------------------------------------------------- R15.g
     n_reads = 0
     for f in ctx.repo.all_funcs("param"):
-        if "_param__private.values" not in ast.unparse(f.node) and ".values.get" not in ast.unparse(f.node):
+        src_ = ast.unparse(f.node)
+        if "_param__private.values" not in src_ and ".values.get" not in src_ and "'values'" not in src_:
             continue
         aliases = ctx.facts.local_aliases(f)
+        # getattr(<x>._param__private, 'values', <fallback>) is the value store too
+        via_getattr = {t.id for st in ast.walk(f.node) if isinstance(st, ast.Assign) and isinstance(st.value, ast.Call) and norm(st.value.func) == "getattr"
+                       and len(st.value.args) >= 2 and norm(st.value.args[0]).endswith("_param__private") and isinstance(st.value.args[1], ast.Constant) and st.value.args[1].value == "values"
+                       for t in st.targets if isinstance(t, ast.Name)}
         for c in ast.walk(f.node):
-            if isinstance(c, ast.Call) and isinstance(c.func, ast.Attribute) and c.func.attr == "get" and ctx.facts.field_of(c.func.value, aliases) == "private.values":
+            if isinstance(c, ast.Call) and isinstance(c.func, ast.Attribute) and c.func.attr == "get" and (
+                    ctx.facts.field_of(c.func.value, aliases) == "private.values" or (isinstance(c.func.value, ast.Name) and c.func.value.id in via_getattr)):
                 n_reads += 1
                 if len(c.args) + len(c.keywords) >= 2:
                     ctx.ok("R15.g", f, c, "value-store lookup with an explicit fallback (None stays a value)")
